@@ -188,6 +188,9 @@ impl Spec {
         let mut s = self.clone();
         for l in &mut s.lines {
             let v = l.values_mut();
+            if v.len() != perm.len() {
+                continue; // an annual DEMANDA next to multi-step components
+            }
             *v = perm.iter().map(|&i| v[i]).collect();
         }
         s
